@@ -1,6 +1,17 @@
 """Helper imported by generated modules: a callable WITH a doctest that collectors must not attribute to the importing module."""
 
 
+import functools
+
+
+def foreign_wraps(f):
+    """a functools.wraps-style decorator that lives in ANOTHER module than the functions it decorates (no doctest here)"""
+    @functools.wraps(f)
+    def wrapper(*a, **k):
+        return f(*a, **k)
+    return wrapper
+
+
 def imported_func(x=1):
     """
     Example:
